@@ -93,10 +93,11 @@ pub fn format_comments(comments: &ChildTrivia, loc: CommentLocation, out: &mut P
 					.split('\n')
 					.map(|l| l.trim_end().to_string())
 					.collect::<Vec<_>>();
-				// Is comment starts with text immediatly, i.e /*text
-				// Such text says nothing about the padding of the lines below it
-				let immediate_start = !lines[0].is_empty();
-				strip_common_padding(&mut lines[usize::from(immediate_start)..]);
+				// Text directly behind `/*` says nothing about the padding of the lines below it; it is
+				// printed as the first of them, and takes part in what they have in common then
+				strip_common_padding(&mut lines[1..]);
+				lines[0] = lines[0].trim_start().to_string();
+				strip_common_padding(&mut lines);
 				// A line that had nothing but the gutter is empty now
 				let leading_empty = lines.iter().take_while(|l| l.is_empty()).count();
 				lines.drain(..leading_empty);
